@@ -3,7 +3,7 @@
 # Apply a seeded change to a scratch worktree kept at /repo's HEAD (/tmp/wt/_chk), run the checks on it, undo.
 set -u
 patch="$(readlink -f "$1")"; shift
-chk=/tmp/wt/_try
+chk=${VERIF_TRY_WT:-/tmp/wt/_try}
 [ -d "$chk" ] || git -C /repo worktree add -q --detach "$chk" HEAD
 cd "$chk" || exit 2
 git checkout -q -- . && git checkout -q --detach "$(git -C /repo rev-parse HEAD)"
